@@ -54,12 +54,15 @@ class Cfg:
     def features(self):
         if self.special == "default":
             return ["lib_default"]
+        if self.special == "default+":
+            # the documented way to add a protocol: default features stay on, one more feature is named
+            return ["lib_default"] + ["dep_" + p for p in self.dep]
         if self.special == "none":
             return []
         return [self.layer] + ["use_" + p for p in self.use] + ["dep_" + p for p in self.dep]
 
     def expected_lines(self):
-        if self.special == "default":
+        if self.special in ("default", "default+"):
             return sorted("OK %s %s" % (label(p), t) for p in ("v4_local", "v4_public") for t in LAYER_TAGS["batteries_included"])
         if self.special == "none":
             return []
@@ -76,6 +79,8 @@ class Cfg:
         return Cfg(j["layer"], j["use"], j["dep"], j.get("special"))
 
     def __repr__(self):
+        if self.special == "default+":
+            return "<default + %s>" % ",".join(self.dep)
         if self.special:
             return "<%s>" % self.special
         s = "%s:{%s}" % (self.layer, ",".join(self.use))
@@ -118,6 +123,8 @@ class Worker:
         feats = []
         if cfg.special == "default":
             feats = ["default"]
+        elif cfg.special == "default+":
+            feats = ["default"] + list(cfg.dep)
         elif cfg.special != "none":
             feats = [cfg.layer] + list(cfg.dep)
         cmd = ["cargo", "check", "-q", "--offline", "--lib", "--manifest-path", os.path.join(self.smoke, "Cargo.toml"), "-p", "rusty_paseto", "--no-default-features"]
@@ -194,6 +201,10 @@ def enumerate_jobs(tier, seed):
         for drop in PROTOS:
             jobs.append(("run", Cfg("generic", tuple(p for p in PROTOS if p != drop)), "config-extra"))
     jobs.append(("run", Cfg("batteries_included", (), special="default"), "config"))
+    # default features plus one more protocol (how the documentation tells users to add one), plus all of them
+    for p in PROTOS:
+        jobs.append(("run" if tier == "thorough" or p in ("v1_public", "v3_local") else "check", Cfg("batteries_included", ("v4_local", "v4_public"), (p,), special="default+"), "default-plus"))
+    jobs.append(("run", Cfg("batteries_included", ("v4_local", "v4_public"), full, special="default+"), "default-plus"))
     jobs.append(("run", Cfg("core", (), special="none"), "config"))
     # monotonicity: code written for S, library built with S' (superset)
     mono = []
@@ -458,7 +469,7 @@ def main():
         exit_code = 1
 
     evaluated = [r for r in results if r[3] is not None]
-    nontriv = set((k,) + c.key() for (k, c, g, ok, d) in evaluated if len(c.dep) >= 2 or c.special == "default")
+    nontriv = set((k,) + c.key() for (k, c, g, ok, d) in evaluated if len(c.dep) >= 2 or c.special in ("default", "default+"))
     by_group = {}
     for (k, c, g, ok, d) in evaluated:
         by_group["%s/%s" % (g, k)] = by_group.get("%s/%s" % (g, k), 0) + 1
